@@ -312,6 +312,51 @@ func checkC20(w *World) {
 				}
 			}
 		}
+		// table form: the type name is looked up in a package-level map from type names to reader functions
+		allInstrs(factory, func(in ssa.Instruction) {
+			lk, ok := in.(*ssa.Lookup)
+			if !ok {
+				return
+			}
+			ld, ok := lk.X.(*ssa.UnOp)
+			if !ok {
+				return
+			}
+			g, ok := ld.X.(*ssa.Global)
+			if !ok {
+				return
+			}
+			entries, ok := w.globalMapLiteral(g)
+			if !ok {
+				return
+			}
+			for _, e := range entries {
+				k, ok := constString(e.Key)
+				if !ok {
+					continue
+				}
+				var fn *ssa.Function
+				switch v := stripConv(e.Val).(type) {
+				case *ssa.Function:
+					fn = v
+				case *ssa.MakeClosure:
+					fn, _ = v.Fn.(*ssa.Function)
+				}
+				if fn == nil {
+					continue
+				}
+				if !inRepoMain(fn) {
+					cases[k] = fn.Name()
+					continue
+				}
+				// a literal in the command: the reader it calls
+				allInstrs(fn, func(in2 ssa.Instruction) {
+					if c, ok := in2.(*ssa.Call); ok && staticCallee(c) != nil && strings.HasPrefix(staticCallee(c).Name(), "Read") {
+						cases[k] = staticCallee(c).Name()
+					}
+				})
+			}
+		})
 	}
 	// the types the MIME detection can choose: the string constants that flow into the factory's type parameter at its
 	// call sites (through variables, and through the results of functions of the command)
@@ -1116,4 +1161,8 @@ func simulatePrefix(fn *ssa.Function, suppress, dash bool, suppressVar string) (
 	ps := &prefixSim{suppress: suppress, dash: dash, suppressVar: suppressVar}
 	e, _, u := ps.run(fn)
 	return e, u
+}
+
+func inRepoMain(fn *ssa.Function) bool {
+	return fnPkgKey(fn) == "xsel" && fn.Pkg != nil && fn.Pkg.Pkg.Name() == "main" || (fn.Parent() != nil && fn.Parent().Pkg != nil && fn.Parent().Pkg.Pkg.Name() == "main")
 }
